@@ -19,6 +19,8 @@ From Coq Require Import NArith List Bool.
 From stdpp Require Import gmap.
 From GH Require Import Base.Prelude Model.Store Model.StoreSpec Model.StoreConc Oracle.StoreCase.
 From GH Require Import Proofs.StoreP Proofs.StoreMainP Proofs.StoreC04P Proofs.StoreConcP.
+From GH Require Import Model.StoreDelConc Proofs.StoreDelConc5P Proofs.StoreDelConc6P.
+From GH Require Import Oracle.C17Del Proofs.C17DelTieP.
 Import ListNotations.
 Open Scope N_scope.
 
@@ -105,6 +107,134 @@ Example C17_order_matters_when_uninitialised :
   option_map h_height (tailp (seq_run (st0 8) (map (map c) [[7]; [5]]))) = Some 7.
 Proof. vm_compute. split; reflexivity. Qed.
 
+(** ** "A tail-side DeleteRange racing with appends at the head leaves a gap-free chain"
+
+    Model/StoreDelConc.v: two actors over the shared state.  The flush goroutine drains the
+    queue [q] (per batch: pending.Append | ensureInit | advanceHead | recedeTail | load of the
+    batch and the two pointers under ptrMu | batch.Commit + unlock | pending.Reset); the deleter
+    runs DeleteRange(T, to) with T = Tail < to <= Head: Sync (a flush(nil) it waits for) | Head() |
+    Tail() + checks | deleteSequential: per height HashByHeight | OnDelete handlers (they only
+    read) | Delete(hash key) | Delete(height key) | cache/pending removal; commit of the write
+    batch | setTail: getByHeight(to) | ptrMu + tailHeader.Store | Put(tail key) | Head() |
+    Put(head key) + unlock.  [ctxf] is the datastore flavour (plain: the deletes hit the datastore
+    one by one; context-aware: they are buffered in one write batch, reads through a snapshot).
+    A schedule [sch] is a list of actors ([true] = deleter); an actor that cannot move (waiting
+    for the Sync, for ptrMu, or finished) leaves its turn to the other one; [run_sched] is the
+    list of configurations reached.  [s] is the state after ANY history with
+    [sHT (run_spec spec0 ops) = Some (T, H)] (Tail() = c T, Head() = c H: C04_refines_spec);
+    [q] any queue of batches of heights above that head (any order, gaps, repeats).
+
+    In EVERY state of EVERY schedule: Head().Height(), Height() and the set of stored heights at
+    or above [to] only grow from one state to the next ([grows_from]: [head_h], [hsh],
+    [stored]), the header returned by Head() is retrievable by height and by hash, and every
+    height of [to, Head] is readable by height and by hash. *)
+Theorem C17_delete_race_every_state : forall c U, chain_hyps c U -> forall b ops T H to ctxf q sch,
+  Forall (op_ok U) ops -> sHT (run_spec spec0 ops) = Some (T, H) -> T < to -> to <= H ->
+  Forall (Forall (fun n => H < n /\ n <= U)) q ->
+  let s := run c (st0 b) ops in
+  let tr := map c_st (run_sched T to ctxf (cfg0 s (map (map c) q)) sch) in
+  grows_from to s tr /\
+  forall x, In x tr ->
+    (o_head_by_height (observe17 x) = true /\ o_head_by_hash (observe17 x) = true) /\
+    exists Hx, headp x = Some (c Hx) /\ hsh x = Hx /\ to <= Hx /\
+      forall n, to <= n <= Hx -> get_by_height x n = Found (c n) /\ get x (h_id (c n)) = Found (c n).
+Proof. exact @hist_race. Qed.
+
+(** When both actors are done ([finished]: queue empty, flush goroutine idle, DeleteRange
+    returned) the store is observationally the sequential result: every read (Head, Tail, Height,
+    GetByHeight, Get, Has, HasAt, GetRange: [obs_equal], the eight equations of C04_refines_spec)
+    equals the read of the specification state "delete, then the appends"; with an empty write
+    batch the persisted pointers name that Head and Tail; a clean restart (same object or a new
+    Store over the datastore) reproduces the same reads.  (Before repo commit 923f13e the
+    persisted-pointer part was false: see the two examples below.) *)
+Theorem C17_delete_race_final_is_sequential : forall c U, chain_hyps c U -> forall b ops T H to ctxf q sch x,
+  Forall (op_ok U) ops -> sHT (run_spec spec0 ops) = Some (T, H) -> T < to -> to <= H ->
+  Forall (Forall (fun n => H < n /\ n <= U)) q ->
+  let s := run c (st0 b) ops in
+  let spE := fold_left spec_append q (fst (spec_delete (run_spec spec0 ops) T to None)) in
+  In x (run_sched T to ctxf (cfg0 s (map (map c) q)) sch) -> finished x ->
+  obs_equal c U (c_st x) spE /\
+  (forall Tf Hf, sHT spE = Some (Tf, Hf) -> pend_h (c_st x) = ∅ ->
+     d_head (c_st x) = Some (h_id (c Hf)) /\ d_tail (c_st x) = Some (h_id (c Tf))) /\
+  (exists s', step (c_st x) ORestart = (s', [], Ok) /\ obs_equal c U s' spE) /\
+  (exists s', step (c_st x) OReopen = (s', [], Ok) /\ obs_equal c U s' spE).
+Proof. exact @hist_race_final_obs. Qed.
+
+(** ... and every schedule with at least (7 per queued batch + 23 + 5 per height to delete)
+    entries does end with both actors done: nobody waits for ever (no deadlock on ptrMu, the
+    Sync is served), so the theorem above speaks about every complete run *)
+Theorem C17_delete_race_terminates : forall c U, chain_hyps c U -> forall b ops T H to ctxf q sch,
+  Forall (op_ok U) ops -> sHT (run_spec spec0 ops) = Some (T, H) -> T < to -> to <= H ->
+  Forall (Forall (fun n => H < n /\ n <= U)) q ->
+  let x0 := cfg0 (run c (st0 b) ops) (map (map c) q) in
+  (7 * length q + 23 + 5 * N.to_nat (to - T - 1) <= length sch)%nat ->
+  finished (last (run_sched T to ctxf x0 sch) x0).
+Proof. exact @hist_race_terminates. Qed.
+
+(** "delete first, then the appends" and "the appends first, then delete" are the same
+    specification state ... *)
+Theorem C17_delete_race_order_irrelevant : forall c U, chain_hyps c U -> forall ops T H to q,
+  Forall (op_ok U) ops -> sHT (run_spec spec0 ops) = Some (T, H) -> T < to -> to <= H ->
+  Forall (Forall (fun n => H < n /\ n <= U)) q ->
+  fold_left spec_append q (fst (spec_delete (run_spec spec0 ops) T to None)) =
+  fst (spec_delete (fold_left spec_append q (run_spec spec0 ops)) T to None).
+Proof. exact @hist_del_comm. Qed.
+
+(** ... in which Tail = [to], the chain [to, Head'] is gap-free, nothing of [T, to) is left, and
+    exactly the other stored and appended heights are stored *)
+Theorem C17_delete_race_gap_free : forall c U, chain_hyps c U -> forall ops T H to q,
+  Forall (op_ok U) ops -> sHT (run_spec spec0 ops) = Some (T, H) -> T < to -> to <= H ->
+  Forall (Forall (fun n => H < n /\ n <= U)) q ->
+  let sp := run_spec spec0 ops in
+  let spE := fold_left spec_append q (fst (spec_delete sp T to None)) in
+  exists H', sHT spE = Some (to, H') /\ H <= H' /\
+    (forall n, to <= n <= H' -> n ∈ sS spE) /\
+    (forall n, T <= n < to -> n ∉ sS spE) /\
+    (forall n, n ∈ sS spE <-> (n ∈ sS sp \/ exists ns, In ns q /\ In n ns) /\ ~ (T <= n < to)).
+Proof. exact @hist_final_shape. Qed.
+
+(** non-vacuity: store 1..6 (batch size 1), DeleteRange(1, 3) racing Append(7, 8) and Append(9):
+    deleter up to its Put(head key), one flush step, ... ; the schedule ends with both actors
+    done, Tail = 3, Head = 9, both pointers persisted, 1 and 2 gone *)
+Definition c17_race_sched : list bool :=
+  repeat true 12 ++ repeat false 4 ++ repeat true 9 ++ repeat false 5 ++ repeat true 20 ++ repeat false 30.
+Example C17_delete_race_run :
+  let c := simple_chain in
+  let s := fst (append (st0 1) (map c [1; 2; 3; 4; 5; 6])) in
+  forall ctxf,
+  let tr := run_sched 1 3 ctxf (cfg0 s (map (map c) [[7; 8]; [9]])) c17_race_sched in
+  let x := last tr (cfg0 s []) in
+  finishedb x = true /\
+  option_map h_height (headp (c_st x)) = Some 9 /\ option_map h_height (tailp (c_st x)) = Some 3 /\
+  d_head (c_st x) = Some (h_id (c 9)) /\ d_tail (c_st x) = Some (h_id (c 3)) /\
+  map (fun n => match get_by_height (c_st x) n with Found _ => true | _ => false end) [1; 2; 3; 4; 5; 6; 7; 8; 9]
+  = [false; false; true; true; true; true; true; true; true].
+Proof. intros c s [|]; vm_compute; repeat split; reflexivity. Qed.
+
+(** the two schedules that, before ptrMu (findings F27, F28), left a stale head / tail pointer
+    on disk: the deleter parked before Put(head key) while a whole Append is flushed; the flush
+    goroutine parked between its load and its Commit while setTail runs.  With the lock the
+    parked actor's rival cannot enter its section (it leaves its turns to the other one), and
+    both schedules end with the right pointers. *)
+Example C17_delete_race_fixed_witnesses :
+  let c := simple_chain in
+  let s := fst (append (st0 1) (map c [1; 2; 3; 4; 5; 6])) in
+  let xa := last (run_sched 1 3 false (cfg0 s (map (map c) [[7; 8]]))
+                    (repeat true 23 ++ repeat false 7 ++ repeat true 1 ++ repeat false 7)) (cfg0 s []) in
+  let xb := last (run_sched 1 3 false (cfg0 s (map (map c) [[7]]))
+                    (repeat true 19 ++ repeat false 5 ++ repeat true 5 ++ repeat false 2 ++ repeat true 5)) (cfg0 s []) in
+  (finishedb xa = true /\ d_head (c_st xa) = Some (h_id (c 8)) /\ d_tail (c_st xa) = Some (h_id (c 3))) /\
+  (finishedb xb = true /\ d_head (c_st xb) = Some (h_id (c 7)) /\ d_tail (c_st xb) = Some (h_id (c 3))).
+Proof. vm_compute. repeat split; reflexivity. Qed.
+
+(** the correspondence of the race cases (Oracle/C17Del.v): for a well-formed case ([wf17d]: the
+    chain list passes [chain_ok], Tail = from < to <= Head after the initial Append, the racing
+    batches are above that head, the fuel of the oracle suffices) a case the model reproduces
+    ([agree17d]: every observation along the script, the final probe, the persisted pointers, the
+    probe after the reopen) satisfies the property oracle ([ok17d]) *)
+Theorem C17_delete_race_oracle_tie : forall x, wf17d x = true -> agree17d x = true -> ok17d x = true.
+Proof. exact agree17d_ok. Qed.
+
 Print Assumptions C17_head_and_height_monotone.
 Print Assumptions C17_never_torn.
 Print Assumptions C17_appended_stays_readable.
@@ -112,3 +242,9 @@ Print Assumptions C17_final_is_sequential.
 Print Assumptions C17_run_splits.
 Print Assumptions C17_sequential_refines_spec.
 Print Assumptions C17_order_independent.
+Print Assumptions C17_delete_race_every_state.
+Print Assumptions C17_delete_race_final_is_sequential.
+Print Assumptions C17_delete_race_order_irrelevant.
+Print Assumptions C17_delete_race_gap_free.
+Print Assumptions C17_delete_race_terminates.
+Print Assumptions C17_delete_race_oracle_tie.
